@@ -625,7 +625,12 @@ impl Session {
         #[cfg(feature = "rdf")]
         self.rdf_store.commit_tx(tx_id);
 
-        self.tx_manager.commit(tx_id).map(|_| ())
+        let epoch = self.tx_manager.commit(tx_id)?;
+
+        // Keep the store's own epoch in step with the transaction manager so that
+        // epoch-filtered accessors (node_ids, get_node, counts, export) see committed data.
+        self.store.sync_epoch(epoch);
+        Ok(())
     }
 
     /// Aborts the current transaction.
